@@ -4,7 +4,7 @@
    On success copies patch.diff, the demo and meta.json (+ what was run) to /verif/seeded/<name>/ and removes the worktree."""
 import subprocess, sys, os, json, shutil, re
 sid = sys.argv[1]; name = sys.argv[2] if len(sys.argv) > 2 else sid
-base = f'/tmp/seed/{sid}'; wt = f'{base}/wt'; out = f'{base}/out'
+base = os.environ.get('SEED_BASE', '/tmp/seed') + f'/{sid}'; wt = f'{base}/wt'; out = f'{base}/out'
 env = dict(os.environ, CARGO_NET_OFFLINE='true')
 def run(cmd, cwd=wt, timeout=3000):
     p = subprocess.run(cmd, shell=True, cwd=cwd, stdout=subprocess.PIPE, stderr=subprocess.STDOUT, env=env, timeout=timeout)
